@@ -1,5 +1,6 @@
 import DaskModel.DriverLib
 import DaskModel.Model.SDL
+import DaskModel.Model.Repart
 open Dask
 
 /-- `(sdl (seq…) npartitions n)` / `(sdl (seq…) chunksize c)` ↦ `(ok (divisions…) (locations…))` | `(raised)` -/
@@ -17,6 +18,81 @@ def hSdl : Handler := handler fun args =>
     | none => pure (.list [.sym "raised"])
   | _ => none
 
-def table : List (String × Handler) := [("sdl", hSdl)]
+/-! ## C44 / C41: repartition -/
+def okOr (r : Option SExp) : SExp := match r with | some e => .list [.sym "ok", e] | none => .list [.sym "raised"]
+
+/-- rows `(key, global position)` of partitions given as lists of keys -/
+def numberRows (parts : List (List Nat)) : List (List (Nat × Nat)) :=
+  (parts.foldl (fun (acc : List (List (Nat × Nat)) × Nat) p =>
+    (acc.1 ++ [(List.range p.length).map fun t => (p.getD t 0, acc.2 + t)], acc.2 + p.length)) ([], 0)).1
+
+def idsOf (ps : List (List (Nat × Nat))) : SExp := SExp.ofNatss (ps.map (·.map (·.2)))
+
+def hToFewerBounds : Handler := handler fun args =>
+  match args with
+  | [n, o] => do pure (okOr ((Repart.toFewerBoundaries (← n.toNat?) (← o.toNat?)).map SExp.ofNats))
+  | _ => none
+
+def hSplitPositions : Handler := handler fun args =>
+  match args with
+  | [l, k] => do pure (okOr ((Repart.splitPositions (← l.toNat?) (← k.toNat?)).map SExp.ofNats))
+  | _ => none
+
+def hNsplits : Handler := handler fun args =>
+  match args with
+  | [n, o] => do pure (okOr ((Repart.nsplits (← n.toNat?) (← o.toNat?)).map SExp.ofNats))
+  | _ => none
+
+def hLowerKind : Handler := handler fun args =>
+  match args with
+  | [n, o, i] => do
+    let interp ← match i with
+      | .sym "none" => some none
+      | e => (e.toNats?).map some
+    pure (match Repart.lowerKind (← n.toNat?) (← o.toNat?) interp with
+      | .fewer => .list [.sym "fewer"]
+      | .same => .list [.sym "same"]
+      | .more => .list [.sym "more"]
+      | .divisions d => .list [.sym "divisions", SExp.ofNats d])
+  | _ => none
+
+def hDivLayer : Handler := handler fun args =>
+  match args with
+  | [a, b, f] => do
+    let r := Repart.divisionsLayer (← a.toNats?) (← b.toNats?) (← f.toBool?)
+    pure (match r with
+      | some L => .list [.sym "ok",
+          .list (L.slices.map fun s => .list [SExp.ofNat s.src, SExp.ofNat s.lo, SExp.ofNat s.hi, SExp.ofBool s.rb]),
+          SExp.ofNatss L.out, SExp.ofNats L.c]
+      | none => .list [.sym "raised"])
+  | _ => none
+
+/-- `(repart-divs (keys-of-partition…) a b force)` ↦ global row positions per new partition -/
+def hRepartDivs : Handler := handler fun args =>
+  match args with
+  | [ps, a, b, f] => do
+    let parts := numberRows (← ps.toNatss?)
+    pure (okOr ((Repart.repartitionDivisions (·.1) parts (← a.toNats?) (← b.toNats?) (← f.toBool?)).map idsOf))
+  | _ => none
+
+def partsOfLengths (ls : List Nat) : List (List (Nat × Nat)) := numberRows (ls.map (List.replicate · 0))
+
+/-- `(tofewer (partition lengths…) new)` ↦ global row positions per new partition -/
+def hToFewer : Handler := handler fun args =>
+  match args with
+  | [ls, n] => do
+    let parts := partsOfLengths (← ls.toNats?)
+    pure (okOr (((Repart.toFewerRaw (← n.toNat?) parts.length).bind (Repart.toFewer parts)).map idsOf))
+  | _ => none
+
+def hToMore : Handler := handler fun args =>
+  match args with
+  | [ls, n] => do pure (okOr ((Repart.toMore (partsOfLengths (← ls.toNats?)) (← n.toNat?)).map idsOf))
+  | _ => none
+
+def table : List (String × Handler) := [("sdl", hSdl),
+  ("tofewer-bounds", hToFewerBounds), ("split-positions", hSplitPositions), ("nsplits", hNsplits),
+  ("lower-kind", hLowerKind), ("div-layer", hDivLayer), ("repart-divs", hRepartDivs),
+  ("tofewer", hToFewer), ("tomore", hToMore)]
 
 def main : IO Unit := runDriver table
